@@ -7,7 +7,11 @@ import json, os, re, subprocess, sys
 HERE = os.path.dirname(os.path.dirname(os.path.abspath(__file__)))
 REPO = os.environ.get('VERIF_REPO', '/repo')
 env = dict(os.environ, VERIF_NOSHRINK='1', VERIF_EVIDENCE_DIR='/tmp/verif-seeded-evidence')
-ids = sys.argv[1:] or sorted(os.listdir(os.path.join(HERE, 'seeded')))
+args = sys.argv[1:]
+seeds = ['1']
+if args and args[0].startswith('--seeds='):
+    seeds = args.pop(0).split('=', 1)[1].split(',')
+ids = args or sorted(os.listdir(os.path.join(HERE, 'seeded')))
 bad = []
 if subprocess.run(['git', '-C', REPO, 'status', '--porcelain', '--untracked-files=no'], stdout=subprocess.PIPE, text=True).stdout.strip():
     print('working tree of %s is not clean' % REPO); sys.exit(2)
@@ -22,12 +26,14 @@ for i in ids:
     try:
         res = []
         for p in dict.fromkeys(props):
-            out = subprocess.run([os.path.join(HERE, 'check'), p], env=env, stdout=subprocess.PIPE, stderr=subprocess.STDOUT, text=True).stdout
+          for sd in seeds:
+            out = subprocess.run([os.path.join(HERE, 'check'), p, '--seed', sd], env=env, stdout=subprocess.PIPE, stderr=subprocess.STDOUT, text=True).stdout
             m = re.search(r'^VIOLATION.*$', out, re.M)
-            res.append((p, bool(m), (re.search(r'^  case.*$', out, re.M) or re.search(r'^  .*$', out, re.M) or [''])[0] if m else ''))
+            n = re.search(r'in (\d+) cases\)', out)
+            res.append((p + '@' + sd, bool(m), ('%s cases; ' % n.group(1) if n else '') + ((re.search(r'^  case.*$', out, re.M) or re.search(r'^  .*$', out, re.M) or [''])[0] if m else '')))
     finally:
         subprocess.run(['git', '-C', REPO, 'checkout', '--', '.'], check=True)
-    ok = any(c for _, c, _ in res)
+    ok = all(c for _, c, _ in res) if len(seeds) > 1 else any(c for _, c, _ in res)
     print('%-7s %s  %s' % (i, 'caught' if ok else 'MISSED', '; '.join('%s:%s%s' % (p, 'V' if c else 'ok', (' ' + t.strip()[:90]) if c else '') for p, c, t in res)), flush=True)
     if not ok: bad.append(i)
 print('not caught:', bad)
